@@ -1,4 +1,4 @@
-import GmqttVerif.Proofs.SubStoreIter
+import GmqttVerif.Proofs.SubStoreAll
 import GmqttVerif.Proofs.TopicMatchBytes
 /-
   C02 — Subscription index answers match MQTT topic-matching rules after any history.
@@ -32,6 +32,23 @@ theorem substore_refines_map (ops : List Op) (hv : ∀ op ∈ ops, ValidOp op) :
 /-- The full relation (`Rel`: lookups, per-client indexes, counters, per-node well-formedness) holds after every history. -/
 theorem substore_rel (ops : List Op) (hv : ∀ op ∈ ops, ValidOp op) : Rel (run new ops).1 (Spec.run [] ops).1 :=
   (rel_new.run ops hv).1
+
+/-- **Refinement, as lists.** `abs` = everything a full walk over the three tries reports (`Iterate{TypeAll}`). After every
+    history without empty topic filters it is — as a multiset — exactly the set of bindings of the abstract map: nothing is
+    lost in the tries (no entry hidden in a detached or shadowed node), nothing is reported twice, nothing stale survives. -/
+theorem substore_abs_eq_map (ops : List Op) (hv : ∀ op ∈ ops, ValidOp op) (hne : FiltersNonEmpty ops) :
+    (abs (run new ops).1).Perm (entries (Spec.run [] ops).1) :=
+  (substore_rel ops hv).abs_perm (wfs_new.run ops)
+    (spec_filters_nonempty [] ops (by intro k s h; simp at h) hne)
+
+/-- `Iterate{Type}` without topic and client id returns, each once, exactly the stored entries of the selected types. -/
+theorem iterate_all_exact (ops : List Op) (hv : ∀ op ∈ ops, ValidOp op) (hne : FiltersNonEmpty ops) (ty : Nat) :
+    let o : Opts := { type := ty }
+    ((run new ops).1.iterate o).Nodup ∧
+    ∀ c s, (c, s) ∈ (run new ops).1.iterate o ↔
+      stored (Spec.run [] ops).1 c s ∧ o.sel (whichOf s.share s.filter) = true :=
+  (substore_rel ops hv).iterateAll_exact (wfs_new.run ops)
+    (spec_filters_nonempty [] ops (by intro k s h; simp at h) hne) _ rfl rfl
 
 /-- **Matching is exact.** For every reachable store, every valid topic name (no wildcard characters), every type mask
     and optional client id: `Iterate{Type, MatchFilter, TopicName[, ClientID]}` returns — each exactly once (`Nodup`) —
@@ -68,6 +85,26 @@ theorem matchTopic_exact_nonshared (ops : List Op) (hv : ∀ op ∈ ops, ValidOp
   constructor
   · rintro ⟨⟨h1, h2, _⟩, h3⟩; exact ⟨h1, h3, h2⟩
   · rintro ⟨h1, h3, h2⟩; exact ⟨⟨h1, h2, by simp⟩, h3⟩
+
+/-- **Lookup by exact name.** `Iterate{Type, MatchName, TopicName[, ClientID]}` (used by `subscription.Get`, the admin API)
+    returns — each once — exactly the stored entries of the selected types whose name equals `TopicName`
+    (`nameMatches`: the filter itself, or `$share/<group>/<filter>` for a shared entry), with the latest options. -/
+theorem find_exact (ops : List Op) (hv : ∀ op ∈ ops, ValidOp op) (name : Str) (hn : name ≠ []) (ty : Nat) (cl : Str) :
+    let o : Opts := { type := ty, topic := name, matchType := 1, client := cl }
+    ((run new ops).1.iterate o).Nodup ∧
+    ∀ c s, (c, s) ∈ (run new ops).1.iterate o ↔
+      (stored (Spec.run [] ops).1 c s ∧ nameMatches name s ∧ (cl = [] ∨ c = cl)) ∧
+        o.sel (whichOf s.share s.filter) = true :=
+  (substore_rel ops hv).matchName_exact _ hn rfl
+
+/-- **Lookup by client.** `Iterate{Type, ClientID}` (used by `GetClientSubscriptions`, session resume) returns — each once —
+    exactly the client's stored entries of the selected types, with the latest options. -/
+theorem client_listing_exact (ops : List Op) (hv : ∀ op ∈ ops, ValidOp op) (cl : Str) (hc : cl ≠ []) (ty : Nat) :
+    let o : Opts := { type := ty, client := cl }
+    ((run new ops).1.iterate o).Nodup ∧
+    ∀ c s, (c, s) ∈ (run new ops).1.iterate o ↔
+      (stored (Spec.run [] ops).1 c s ∧ c = cl) ∧ o.sel (whichOf s.share s.filter) = true :=
+  (substore_rel ops hv).clientListing_exact _ rfl hc
 
 /-- **Counters are exact.** `SubscriptionsCurrent` = number of live subscriptions, `SubscriptionsTotal` = number of
     Subscribe calls that created a new key, and every client's `SubscriptionsCurrent` = number of its live subscriptions. -/
